@@ -1805,3 +1805,51 @@ Proof.
   - split; exact I.
   - split; [exact I|]. apply Z.leb_le. exact H.
 Qed.
+
+(** * The message level *)
+
+Lemma op_ok_as_msg e o : op_ok e o -> op_ok e (as_msg o).
+Proof. destruct o; cbn; auto. Qed.
+
+(* a message that succeeds is the keeper call it makes (with crossChain = true) *)
+Lemma msg_step_ok e s o s' u : msg_step e s o = Ok s' u ->
+  msg_validate_basic o = true /\ step e s (as_msg o) = Ok s' u.
+Proof. unfold msg_step. destruct (msg_validate_basic o); [auto|discriminate]. Qed.
+
+(* a message refused by ValidateBasic fails and changes nothing *)
+Lemma msg_step_refused e s o : msg_validate_basic o = false -> msg_step e s o = Err /\ msg_step' e s o = s.
+Proof. intros V. unfold msg_step', msg_step. rewrite V. auto. Qed.
+
+Lemma msg_step'_cases e s o : msg_step' e s o = s \/ msg_step' e s o = step' e s (as_msg o).
+Proof.
+  unfold msg_step', msg_step, step'. destruct (msg_validate_basic o); [right; reflexivity|left; reflexivity].
+Qed.
+
+Lemma msg_step'_inv e s o : env_wf e -> op_ok e o -> Inv e s -> Inv e (msg_step' e s o).
+Proof.
+  intros W O I. destruct (msg_step'_cases e s o) as [-> | ->]; [exact I|].
+  apply step'_inv; [exact W|apply op_ok_as_msg; exact O|exact I].
+Qed.
+
+(* histories mixing keeper calls and messages *)
+Definition mixed_step' (e : env) (s : state) (mo : bool * op) : state :=
+  if fst mo then msg_step' e s (snd mo) else step' e s (snd mo).
+Definition mixed_run (e : env) (s : state) (l : list (bool * op)) : state := fold_left (mixed_step' e) l s.
+
+Theorem mixed_run_inv e l : forall s, env_wf e -> Forall (fun mo => op_ok e (snd mo)) l -> Inv e s -> Inv e (mixed_run e s l).
+Proof.
+  induction l as [|[m o] l IH]; intros s W F I; cbn [mixed_run fold_left]; [exact I|].
+  inversion F as [|? ? O F']; subst. cbn [snd] in O. apply IH; try assumption.
+  unfold mixed_step'. cbn [fst snd]. destruct m; [apply msg_step'_inv|apply step'_inv]; assumption.
+Qed.
+
+(* what ValidateBasic adds to the keeper's own checks: a swap created by a
+   message has a positive height span (the keeper alone accepts an incoming
+   swap with span 0, which expires in the block it is created in) *)
+Lemma msg_create_span_positive e s h ts span sender recip soc coins cross s' u :
+  msg_step e s (Create h ts span sender recip soc coins cross) = Ok s' u -> 0 < span /\ 0 < ts.
+Proof.
+  intros H. apply msg_step_ok in H. destruct H as (V & _). cbn [msg_validate_basic] in V.
+  apply andb_true_iff in V. destruct V as (V & _). apply andb_true_iff in V. destruct V as (A & B).
+  apply Z.ltb_lt in A. apply Z.ltb_lt in B. auto.
+Qed.
